@@ -30,7 +30,7 @@ RULE = (
     "or flatten's destination pre-exists; distinct by (scenario hash) with per-invocation counts in the classes."
 )
 ASSUMPTIONS = ["writes are observed through Python's audit events and stat snapshots (a C extension writing behind Python's back would only be seen by the snapshot, and only inside the scratch area)"]
-BUDGET = {"quick": (160, 4), "thorough": (30000, 16)}
+BUDGET = {"quick": (160, 4), "thorough": (20000, 16)}
 REQUIRED = ["failing_command", "nested_world", "flatten_existing_dest", "flatten_relative_dest", "create_new_ascmhl", "tampered", "readonly_ok", "create_sf", "create_sf_beside_history", "leftover_partial", "flatten_refused_existing_empty_dest", "nested_history_excluded_by_path_pattern"]
 
 CFG = {
